@@ -184,6 +184,8 @@ def run(M, rep, tier, only=None):
             elif rk not in have:
                 rep.bad(R2, ident, "%s no longer refuses with %s before writing (validation removed, weakened or moved "
                         "behind a write)" % (api, rk))
+            elif api.endswith("@set") and wparams and have[rk]:
+                rep.ok(R2, ident)       # a setter has one value parameter; what it is called is not part of the API
             elif not set(wparams) <= set(have[rk]):
                 rep.bad(R2, ident, "%s: the %s refusal before writing no longer depends on argument(s) %s" % (
                     api, rk, sorted(set(wparams) - set(have[rk]))))
